@@ -82,7 +82,7 @@ pub fn install_panic_hook() {
         let mut loc = info.location().map(|l| format!("{}:{}", l.file(), l.line())).unwrap_or_default();
         let msg = if let Some(s) = info.payload().downcast_ref::<&str>() { s.to_string() }
             else if let Some(s) = info.payload().downcast_ref::<String>() { s.clone() } else { String::new() };
-        if !(loc.starts_with("/repo/src/") || loc.starts_with("src/") || loc.contains("/verif/sim/src/")) {
+        if !(loc.starts_with("/repo/src/") || loc.starts_with("src/")) {
             // The panic was raised inside a library (allocator, slice indexing…): attribute it to the
             // innermost frame that belongs to the code under test or to the harness.
             let bt = std::backtrace::Backtrace::force_capture().to_string();
@@ -114,7 +114,7 @@ pub fn exec(prop: &dyn Property, src: &mut Src, ctx: &RunCtx) -> Exec {
             // by tokio and only shows as a closed channel; the hook still recorded it.
             if let Some(what) = LAST_PANIC.with(|p| p.borrow_mut().take()) {
                 if let Some(at) = what.rsplit(" @ ").next() {
-                    if at.starts_with("/repo/src/") || at.starts_with("src/") {
+                    if at.starts_with("/repo/src/") || at.starts_with("src/<redis_sim") {
                         let site = at.trim_start_matches("/repo/");
                         rep.violate(format!("{}/panic/{}", prop.id(), site), format!("a task of the system under test panicked: {}", what));
                     } else {
@@ -127,7 +127,7 @@ pub fn exec(prop: &dyn Property, src: &mut Src, ctx: &RunCtx) -> Exec {
         Err(_) => {
             let what = LAST_PANIC.with(|p| p.borrow_mut().take()).unwrap_or_else(|| "panic".into());
             if let Some(at) = what.rsplit(" @ ").next() {
-                if at.starts_with("/repo/src/") || at.starts_with("src/") {
+                if at.starts_with("/repo/src/") || at.starts_with("src/<redis_sim") {
                     let mut rep = RunReport::default();
                     rep.evals = 1;
                     let site = at.trim_start_matches("/repo/");
